@@ -317,6 +317,13 @@ func decodeKey(seq ansi.Sequence) Key {
 	case ansi.ESC:
 		key.Keycode = seq.Final
 		key.Modifiers = ModAlt
+		if unicode.IsUpper(seq.Final) {
+			// Alt+Shift+letter arrives as ESC followed by the
+			// upper-case letter: normalize like a printed key
+			key.Keycode = unicode.ToLower(seq.Final)
+			key.ShiftedCode = seq.Final
+			key.Modifiers |= ModShift
+		}
 	case ansi.SS3:
 		switch rune(seq) {
 		case 'A':
